@@ -6,6 +6,7 @@ and instances are created without / with an explicit tag and given instance-leve
 """
 from mc.engine import hbfs
 from mc.engine.report import Violation
+from mc.engine.seams import Canon
 
 import ECAgent.Core as Core
 
@@ -35,7 +36,7 @@ META = {
                  'per-state probes': 'len/contains/getitem/get_class_component(strict)/has_class_component/tag on every '
                                      'class; instance without tag, with tag 7 and with tag 0; instance-level '
                                      'add_component X on a fresh instance'},
-    'bounds': {'quick': 'depth 4', 'thorough': 'depth 5'},
+    'bounds': {'quick': 'full alphabet depth 4; classes A, A1, B with type X only: fixpoint', 'thorough': 'full alphabet depth 5; same fixpoint leg'},
     'assumptions': ['canonical state = per-class (store order and identity, default tag, id) read from the metaclass '
                     'fields; environments are instantiated through their own constructor (no explicit tag possible)'],
 }
@@ -46,11 +47,15 @@ class World:
 
 
 class Harness:
-    def __init__(self):
-        self.config = {}
+    def __init__(self, op_classes=None, op_types=('X', 'Y'), subclassing=True):
+        self.op_classes = list(op_classes or CLASSES)
+        self.op_types = list(op_types)
+        self.subclassing = subclassing
+        self.config = {'op_classes': self.op_classes, 'op_types': self.op_types, 'subclassing': subclassing}
+        self.cn = Canon()
         self._ops = []
-        for c in CLASSES:
-            for T in ('X', 'Y'):
+        for c in self.op_classes:
+            for T in self.op_types:
                 self._ops.append(['attach', c, T])
                 self._ops.append(['detach', c, T])
             self._ops.append(['tag', c, 0])
@@ -80,7 +85,7 @@ class Harness:
 
     def ops(self, w):
         ops = list(self._ops)
-        for parent in ('Agent', 'A', 'Environment'):
+        for parent in (('Agent', 'A', 'Environment') if self.subclassing else ()):
             n = 'N_' + parent
             if n in w.cls:
                 ops += [['attach', n, 'X'], ['tag', n, 3]]
@@ -203,17 +208,16 @@ class Harness:
         return repr(comp)
 
     def canon(self, w):
-        out = []
-        for c in w.cls:
-            cls = w.cls[c]
-            out.append((tuple((t.__name__, self._cname(w, v)) for t, v in cls._components.items()), cls._tag, cls._id))
-        return tuple(out)
+        # generic canon over the per-class stores: it tracks which classes hold the very same store object and
+        # whether a store IS one of the library's module-level containers (a shared store looks identical to two
+        # separate ones until the next attach)
+        return self.cn([(c, w.cls[c]._components, w.cls[c]._tag, w.cls[c]._id) for c in w.cls])
 
     def refstate(self, w):
         return tuple((c, tuple(w.ref[c]['comps']), w.ref[c]['tag']) for c in w.cls)
 
     def outcome(self, w):
-        return (self.canon(w), w.last)
+        return (self.refstate(w), w.last)
 
 
 def run(ctx):
@@ -221,8 +225,17 @@ def run(ctx):
     h = Harness()
     r = hbfs.explore(ctx, h, 'hierarchy', max_depth=depth, procs=ctx.procs)
     ctx.leg('hierarchy', **r)
-    ctx.caps.append(f'depth bound {depth} (all histories up to that depth covered)')
+    ctx.caps.append(f'hierarchy: depth bound {depth} (all histories up to that depth covered)')
+    if ctx.violations:
+        return
+    # a reduced alphabet (three classes, one component type) closes: every reachable state, at any depth
+    h2 = Harness(['A', 'A1', 'B'], ('X',), subclassing=False)
+    r = hbfs.explore(ctx, h2, 'core_fixpoint', max_depth=40, procs=ctx.procs)
+    ctx.leg('core_fixpoint', **r)
+    if not r.get('fixpoint'):
+        ctx.cap('core_fixpoint: fixpoint not reached')
 
 
 def replay(case):
-    hbfs.replay_case(Harness(), case)
+    c = case['config']
+    hbfs.replay_case(Harness(c.get('op_classes'), c.get('op_types', ('X', 'Y')), c.get('subclassing', True)), case)
